@@ -1014,5 +1014,43 @@ mod verif_deflate_core {
             && d.dict.b.dict[0] == 0 && d.dict.b.hash[0] == 0 && d.dict.b.next[0] == 0, "OBL:reset.compressor_window_and_hash_chains_zeroed [C18]");
     }
 
+    // ------------------------------------------------------------------
+    // K-huff : HuffmanOxide::enforce_max_code_size (length limiting of the dynamic codes), bounded:
+    // a depth histogram of a full binary tree with up to 9 leaves at depths up to 9, limit 7 (code-length alphabet).
+    // Contract (RFC 1951: code-length sets must be complete and within the limit): afterwards no code is longer
+    // than the limit, the number of codes is preserved and the Kraft sum is exactly 1.
+    // ------------------------------------------------------------------
+    #[kani::proof]
+    #[kani::unwind(34)]
+    fn k_enforce_max_code_size_kraft() {
+        const D: usize = 10; // depths 1..=9 used
+        let mut num_codes = [0i32; 33];
+        let mut kraft_in: u32 = 0;   // in units of 2^-9
+        let mut n: i32 = 0;
+        let mut i = 1;
+        while i < D {
+            let c: u8 = kani::any();
+            kani::assume(c <= 3);
+            num_codes[i] = c as i32;
+            n += c as i32;
+            kraft_in += (c as u32) << (9 - i);
+            i += 1;
+        }
+        // what calculate_minimum_redundancy produces: the depth histogram of a full binary tree (Kraft sum 1), >= 2 leaves
+        kani::assume(kraft_in == 1 << 9 && n >= 2 && n <= 9);
+        let limit: usize = 7; // the code-length alphabet's limit (concrete: a symbolic slice bound exhausts memory)
+        HuffmanOxide::enforce_max_code_size(&mut num_codes, n as usize, limit);
+        let mut kraft_out: u32 = 0;
+        let mut total: i32 = 0;
+        let mut j = 1;
+        while j < D {
+            if j <= limit { assert!(num_codes[j] >= 0, "OBL:huff.no_negative_code_count [C10]"); kraft_out += (num_codes[j] as u32) << (limit - j); total += num_codes[j]; }
+            j += 1;
+        }
+        assert!(total == n, "OBL:huff.number_of_codes_preserved [C10]");
+        assert!(kraft_out == 1 << limit, "OBL:huff.length_limited_code_set_is_complete_kraft_sum_1 [C10]");
+        kani::cover!(kraft_in == 1 << 9 && total == n && n >= 9, "COV:huff.nine_codes");
+    }
+
     //@PLAYBACK@
 }
